@@ -59,7 +59,6 @@ theorem vr_sends_simD {val : Val} {voters : List Id} {n : Nat} {s : Spec.State} 
       id := by rw [hok.cfg]; exact hI.st.id
       idnz := hI.st.idnz
       pv := by rw [hok.cfg]; exact hI.st.pv
-      cq := by rw [hok.cfg]; exact hI.st.cq
       xfer := hsf.leadTransferee.trans hI.st.xfer
       pri := hsf.pendingReadIndexMessages.trans hI.st.pri
       ro := by rw [hsf.readOnly]; exact hI.st.ro
